@@ -5,6 +5,6 @@ a=$1; b=$2; shift 2
 props=${@:-C01 C02 C03 C04 C05 C06 C07 C08 C09 C10 C11 C12 C15 C16 C17 C18 C19}
 for sd in $(seq $a $b); do
   for p in $props; do
-    VERIF_SEED=$sd /venv/bin/python /verif/sim/driver.py check $p --tier quick --no-evidence 2>&1 | grep -v "^KNOWN" | sed "s/^/seed=$sd /" | cut -c1-330
+    VERIF_SEED=$sd /venv/bin/python "$(dirname "$(readlink -f "$0")")/sim/driver.py" check $p --tier quick --no-evidence 2>&1 | grep -v "^KNOWN" | sed "s/^/seed=$sd /" | cut -c1-330
   done
 done
